@@ -72,9 +72,23 @@ def run_check(prop, tier, seed, replay=None):
     t0 = time.time()
     SHARD_MIN[0] = prop.shard_min
     rng = random.Random(seed * 1000003 + sum(map(ord, prop.id)))
-    proof = proof_step(prop.id)
+    # translation, Coq build, extraction, driver and harness builds write shared files: one check at a time
+    import fcntl
+    os.makedirs(os.path.join(VERIF, ".cache"), exist_ok=True)
+    lock = open(os.path.join(VERIF, ".cache", "build.lock"), "w")
+    fcntl.flock(lock, fcntl.LOCK_EX)
     try:
-        errs = ensure_built(prop.profiles)
+        proof = proof_step(prop.id)
+        try:
+            errs = ensure_built(prop.profiles)
+        except CheckError as e:
+            errs = e
+    finally:
+        fcntl.flock(lock, fcntl.LOCK_UN)
+        lock.close()
+    try:
+        if isinstance(errs, CheckError):
+            raise errs
     except CheckError as e:
         path = write_replay(prop.id, "no-failing-input-found", ["model-build"], [], seed, tier, {"detail": str(e)})
         write_evidence(prop.id, tier, seed, t0, proof, dict(evaluations=0, distinct_nontrivial=0, rule=prop.rule, samples=[], explanation=str(e)[:500]), 1)
